@@ -42,11 +42,28 @@ def run(rep, groups):
             raise core.CheckBroken("witness doctests did not run:\n" + out[-2500:])
         n = 0
         want = tuple(p for g in groups for p in GROUPS[g])
+        # alternative forms: `X__alt1` states the same guarantee for another representation; the compile-fail tests of X and
+        # its alternatives are judged together (the guarantee holds when, for one of the forms, all of them fail as stated)
+        fam = {}
+        for (full, item, line, status) in tests:
+            if "compile fail" in full:
+                base = item.split("__alt")[0]
+                fam.setdefault(base, {}).setdefault(item, []).append(status)
+        fam_ok = {base: any(all(x == "ok" for x in sts) for sts in forms.values()) for base, forms in fam.items()}
+        done = set()
         for (full, item, line, status) in tests:
             if not item.startswith(want):
                 continue
-            n += 1
             kind = "compile_fail" if "compile fail" in full else "twin"
+            base = item.split("__alt")[0]
+            if kind == "compile_fail" and len(fam.get(base, {})) > 1:
+                if base in done:
+                    continue
+                done.add(base)
+                n += 1
+                rep.check(fam_ok[base], "witness", "witness::" + base, "compile_fail@%s" % base, "none of the forms of the compile-fail witness %s fails to compile as stated: the type-level guarantee is gone" % base, detail="compile_fail %s (any of %s): %s" % (base, sorted(fam[base]), "ok" if fam_ok[base] else "failed"))
+                continue
+            n += 1
             rep.check(
                 status == "ok", "witness", "witness::" + item, "%s@%s" % (kind, item),
                 ("the compile-fail witness %s no longer fails to compile with the expected error: the type-level guarantee is gone" % item) if kind == "compile_fail" else ("the compiling twin of %s no longer compiles (API changed): the witness is not meaningful" % item),
